@@ -50,6 +50,55 @@ func (ex *Executable) Validate(root *Root) (errs []error) {
 	for _, f := range ex.Fragments {
 		errs = append(errs, f.Validate(root)...)
 	}
+	return append(errs, ex.validateFragmentCycles()...)
+}
+
+// validateFragmentCycles refuses fragments that spread themselves, directly
+// or through other fragments. Resolving such a document would never end.
+func (ex *Executable) validateFragmentCycles() (errs []error) {
+	const (
+		visiting = 1
+		done     = 2
+	)
+	state := map[*Fragment]int{}
+	var visitSels func(sels []Selection) *FragRef
+	visit := func(f *Fragment) (fr *FragRef) {
+		state[f] = visiting
+		if fr = visitSels(f.Sels); fr == nil {
+			state[f] = done
+		}
+		return
+	}
+	visitSels = func(sels []Selection) (fr *FragRef) {
+		for _, sel := range sels {
+			switch ts := sel.(type) {
+			case *Field:
+				fr = visitSels(ts.Sels)
+			case *Inline:
+				fr = visitSels(ts.Sels)
+			case *FragRef:
+				switch state[ts.Fragment] {
+				case visiting:
+					fr = ts
+				case done:
+				default:
+					fr = visit(ts.Fragment)
+				}
+			}
+			if fr != nil {
+				break
+			}
+		}
+		return
+	}
+	for _, f := range ex.Fragments {
+		if state[f] == 0 {
+			if fr := visit(f); fr != nil {
+				errs = append(errs, valError(fr.line, fr.col, "fragment %s is spread within itself", fr.Fragment.Name))
+				break
+			}
+		}
+	}
 	return
 }
 
